@@ -135,5 +135,5 @@ def run(prog: Program, rep: Report, tier: str = "quick") -> None:
             seen.add(key)
             rep.add(Instance(d["rule"], d["verdict"], d["module"], d["function"], d["construct"], d["line"], d.get("message", ""), d.get("detail", {})))
     n = len(roles)
-    rep.floor("R8.1", 40 * n)
+    rep.floor("R8.1", 35 * n)
     rep.floor("R8.2", 5 * n)
